@@ -1329,6 +1329,17 @@ def dict_priority(t: T, unname=lambda v: v, depth: int = 0
     if t.op == "binop" and t.args[0] == "BitOr":
         a, b = rec(t.args[1]), rec(t.args[2])
         return None if a is None or b is None else b + a
+    if t.op == "dict" and t.args and all(
+            isinstance(kv, tuple) and kv[0].op == "star" and
+            tm.is_const(kv[0].args[0], "**") for kv in t.args):
+        # {**A, **B}: B over A
+        out = []
+        for _, v in reversed(t.args):
+            src = rec(v)
+            if src is None:
+                return None
+            out += src
+        return out
     if t.op in ("ite", "loopout", "loopvar", "upd"):
         return None
     return [t]
